@@ -35,14 +35,17 @@ def rule_R05_1(ctx):
                     and ("eval::value::SourcedValue" in full):
                 sites.append((f, c, d))
     r.require_floor("mutable accesses to container contents", len(sites), 4)
+    import anchors
+    bmod = anchors.binder_module(prog)
+    r.inst("binder module (holds the RawExpr target table): %s" % bmod)
     for f, c, what in sites:
         r.inst("%s: %s" % (f.path, what))
-        if f.module.startswith("eval::bind") and not f.generated:
+        if f.module.startswith(bmod) and not f.generated:
             r.ok()
         else:
             r.fail("%s | mutable container access" % f.root_fn().path,
                    "%s obtains a mutable view of a list/object cell (%s); "
-                   "only assignment targets in eval::bind may" % (f.path, what),
+                   "only assignment targets in the binder module may" % (f.path, what),
                    where=c.loc)
     return r
 
